@@ -10,6 +10,8 @@ separation of the companion branch's marked results from the chain's results.
 Values, flows, `inc`, `even`, `tag`, canonical comparison come from mc.ref.c01c05_common (imported,
 not edited); this module adds the factories C05 needs beyond those.
 """
+import copy
+
 import lena.core
 import lena.flow
 import lena.math
@@ -21,8 +23,14 @@ from mc.ref import c01c05_common as cm
 # extra elements
 
 def plus100(value):
+    """A second result for the same value, with a context of its own. The copy is taken NOW, from the
+    context as the value first had it (a snapshot made when the generator is resumed, or a shallow copy
+    that shares nested dictionaries, would let elements further down the chain - which update contexts
+    in place - be seen through it, and then run-driven and fill-driven chains differ through this
+    helper, not through lena: a fill-driven chain pushes the first result through the whole chain before
+    the second one is made)."""
     if cm.is_pair(value):
-        return (value[0] + 100, dict(value[1]))
+        return (value[0] + 100, copy.deepcopy(value[1]))
     return value + 100
 
 
@@ -32,8 +40,9 @@ class Dup(object):
 
     def run(self, flow):
         for val in flow:
+            second = plus100(val)       # before the first result is handed on (see plus100)
             yield val
-            yield plus100(val)
+            yield second
 
 
 def markB(value):
